@@ -218,7 +218,9 @@ func numkeysStepExtractor(numkeysIdx int, firstKeyIdx int, keyStep int, fixedKey
 			return nil
 		}
 		numkeys := parseCommandInt(args[numkeysIdx])
-		if numkeys <= 0 {
+		// A count larger than the argument list can never be satisfied; rejecting it
+		// here also keeps the index arithmetic below from overflowing.
+		if numkeys <= 0 || numkeys > len(args) {
 			return nil
 		}
 		lastKeyIdx := firstKeyIdx + (numkeys-1)*keyStep
